@@ -44,6 +44,13 @@ func c05Universe(kind string) []nBundle {
 		b2.ts = nAbsNow - 2*nLifetime
 		b2.prev = nP(nEid{2, 0})
 		return []nBundle{b1, b2}
+	case "from-dest":
+		// b2 came from its own destination node (peer 2 relayed a bundle for a service on its node that it could
+		// not deliver itself): the epidemic gate (known finding) holds it back while only that peer is connected
+		b1 := nFresh(1, c05Self, far)
+		b2 := nFresh(2, nEid{7, 0}, nEid{3, 1})
+		b2.prev = nP(nEid{3, 0})
+		return []nBundle{b1, b2}
 	case "refused":
 		// b1: hop limit reached; b2: unknown block demanding deletion; relayed clock-less bundle
 		b1 := nFresh(1, nEid{7, 0}, far)
@@ -371,6 +378,7 @@ func c05Sentinels(algos []struct {
 		{"plain", "U1 S1 T T X U1 T U2 T"},        // failures and retries, restart
 		{"plain", "U1 U2 R2 D2 R2 U2"},            // direct delivery, failure, redelivery
 		{"refused", "U1 R1 R2 S1 T C"},            // hop limit, refused submit
+		{"from-dest", "R2 U2 T U1 T"},             // a bundle that came from its destination node
 	}
 	var out []*nHist
 	for _, a := range algos {
